@@ -42,6 +42,11 @@ def plan(tier):
     n, per = (6, 40) if tier == "quick" else (12, 400)
     for i in range(n):
         descs.append({"kind": "after_use", "examples": per, "focus": [None, "MetaModule", "Sampler"][i % 3]})
+    from vlib import subproc
+
+    names = sorted(subproc.VARIANTS)
+    for i in range(3):
+        descs.append({"kind": "import_env", "variants": names[i::3]})
     return descs
 
 
@@ -480,7 +485,34 @@ def run_after_use(ctx, desc):
     run_property(ctx, strat, body2, desc["examples"], tag="after_use_files", bucket="after_use")
 
 
+def run_import_env(ctx, desc):
+    """The class metadata is built while the library is imported: it must come out the same however
+    the interpreter was started and whatever the program did before the import."""
+    import hashlib
+    import json
+
+    from vlib import subproc
+    from vlib.harness import jsonable
+
+    body = "import logging\nfrom checks import c13\nfrom vlib.harness import jsonable\nimport hashlib, json\nfp = c13.fingerprint()\nRESULT = {'digest': hashlib.sha256(json.dumps(jsonable(fp), sort_keys=True).encode()).hexdigest(), 'classes': len(fp), 'first_controllers': {t[0]: [c[0] for c in t[6]][:4] for t in fp[:6]}}\n"
+    here = hashlib.sha256(json.dumps(jsonable(fingerprint()), sort_keys=True).encode()).hexdigest()
+    for v in desc["variants"]:
+        ctx.case()
+        res = subproc.run(v, body)
+        rec = {"op": "import_env", "variant": v}
+        if res.get("__failed__"):
+            ctx.check(False, "C13.import_env.import_fails", "importing the library in a fresh interpreter (%s) failed: rc=%r %s" % (v, res.get("returncode"), (res.get("stderr") or "")[-400:]), key="C13.import_env:" + v, recipe=rec)
+            continue
+        ctx.check(res["digest"] == here, "C13.import_env.metadata_differs", "class metadata built in a fresh interpreter (%s) differs from this process's: %d classes, e.g. %r" % (v, res["classes"], res["first_controllers"]), key="C13.import_env:" + v, recipe=rec)
+        ctx.label("import_env_" + v)
+        ctx.mark_nontrivial(rec)
+        ctx.sample(rec)
+
+
 def run_shard(ctx, desc):
+    if desc.get("kind") == "import_env":
+        run_import_env(ctx, desc)
+        return
     k = desc["kind"]
     if k == "after_use":
         run_after_use(ctx, desc)
@@ -509,6 +541,14 @@ def replay_after_use(ctx, doc):
 def replay(ctx, doc):
     if doc["recipe"].get("tag") == "after_use":
         return replay_after_use(ctx, doc)
+    if doc["recipe"].get("op") == "import_env":
+        from vlib.harness import Ctx, PropertyViolation
+
+        c2 = Ctx(ctx.prop, ctx.tier, ctx.seed, 0, 1, [])
+        run_import_env(c2, {"variants": [doc["recipe"]["variant"]]})
+        if c2.failures:
+            raise PropertyViolation(c2.failures[0]["sub_oracle"], c2.failures[0]["detail"], c2.failures[0]["key"])
+        return
     """A saved C13 failure names (sub, entity, field); re-run that sub-check completely
     and fail if that comparison still fails."""
     from vlib.harness import Ctx, PropertyViolation
